@@ -133,6 +133,12 @@ MUTANTS: List[Tuple[str, List[str], List[Tuple[str, str, str]], str]] = [
      "exception thrown into dependencies regardless of propagate_exceptions"),
     ("skip-close-on-noresult", ["C12"], [(R, "            await dep_ctx.close(*args)", "            if not isinstance(found_exception, NoResultError):\n                await dep_ctx.close(*args)")],
      "dependencies never torn down for a no-result outcome"),
+    ("worker-signal-handler-keeps-running", ["C05"], [("taskiq/cli/worker/run.py", "        shutdown_event.set()\n", "        pass\n")],
+     "`taskiq worker`: the signal handler of the worker process no longer requests the shutdown (only the real-process cross-check runs start_listen with signals)"),
+    ("worker-first-signal-is-hard-kill", ["C05"], [("taskiq/cli/worker/run.py", "        if hardkill_counter > args.hardkill_count:", "        if hardkill_counter >= 0:")],
+     "`taskiq worker`: the first stop signal already raises KeyboardInterrupt in the worker: accepted messages are abandoned"),
+    ("worker-listens-on-private-event", ["C05"], [("taskiq/cli/worker/run.py", "            loop.run_until_complete(receiver.listen(shutdown_event))", "            loop.run_until_complete(receiver.listen(asyncio.Event()))")],
+     "`taskiq worker`: the receiver waits on an event nobody sets"),
     ("skip-first-run-ignored", ["C15"], [(SR, "    if args.skip_first_run:", "    if False and args.skip_first_run:")],
      "`taskiq scheduler --skip-first-run` polls and sends at once"),
     ("skip-first-run-always", ["C15"], [(SR, "    if args.skip_first_run:", "    if args.skip_first_run or True:")],
